@@ -194,7 +194,10 @@ def step (st : St) (line : String) : St × String :=
   match toks with
   | ["case", n] => ({ db := Db.empty, txn := .none }, s!"case {n}")
   | ["txn_begin"] =>
-    if st.txn = .none then ({ st with txn := .open_ }, "ok") else (st, "bad-op")
+    match st.txn with
+    | .none => ({ st with txn := .open_ }, "ok")
+    | .open_ => (st, "bad-op")
+    | .aborted => (st, "skipped")
   | ["txn_fail"] =>
     match st.txn with
     | .none => (st, "bad-op")
@@ -208,9 +211,17 @@ def step (st : St) (line : String) : St × String :=
     | .aborted => ({ st with txn := .none }, "aborted")
     | .open_ => ({ db := st.db.commit, txn := .none }, "committed")
   | _ =>
+    if st.txn = .aborted then (st, "skipped") else
     match parseOp toks with
     | .bad => (st, "bad-op")
-    | .ro f => if st.txn = .aborted then (st, "skipped") else (st, strOf (f st.db))
+    | .ro f =>
+      match f st.db, st.txn with
+      | .ok o, _ => (st, o)
+      | .error e, .open_ =>
+        (match st.db.rollback with
+          | some db' => ({ db := db', txn := .aborted }, e.toString)
+          | none => ({ st with txn := .aborted }, "panic:rollback"))
+      | .error e, _ => (st, e.toString)
     | .mut m =>
       match st.txn with
       | .aborted => (st, "skipped")
